@@ -85,6 +85,8 @@ def tclass(nn, q, t):
 
 
 def base_kind(kind):
+    if kind.startswith("OTHER"):
+        return kind
     return {"LEV": "LEV", "BFS-LEV": "LEV", "EXT-LEV": "LEV", "HAM": "HAM", "HAMREP": "HAMEQ", "BFS-HAM": "HAMEQ", "EXT-HAM": "HAM", "CUST": "CUST"}[kind]
 
 
@@ -205,7 +207,7 @@ def value_matches(nn, site, dinfo, sa, sb):
     q = site.q
     kind = dinfo["kind"]
     x, y = dinfo["ops"]
-    if kind in ("LEV", "HAM", "HAMREP", "CUST"):
+    if kind in ("LEV", "HAM", "HAMREP", "CUST") or kind.startswith("OTHER"):
         ex, ey = nn.elem_of(q, x), nn.elem_of(q, y)
         if ey is None:
             # key equality: y is the string under which the reported reference position is filed in a dictionary keyed by the sequence itself
@@ -424,8 +426,8 @@ def run_fga(r, prop, cds, labels=None, floor=None):
                     st.extra.setdefault("bfs", []).append((kind, T))
             check_site_ext(r, prop, nn, st, mode, sa, sb, policy, eqlen, label)
             n += 1
-    if floor is not None and n < floor:
-        raise AnalysisBroken(f"{prop}: {n} insertion site x mode instances analysed, floor is {floor}")
+    if floor is not None:
+        r.rep.require(n >= floor, f"{prop}: {n} insertion site x mode instances analysed, floor is {floor}")
     return n
 
 
@@ -443,3 +445,1054 @@ def check_site_ext(r, prop, nn, st, mode, sa, sb, policy, eqlen, label):
         return check_site(r, prop, nn, st, mode, sa, sb, policy, eqlen, label)
     finally:
         nn.dist_of = orig
+
+
+# =========================================================================== structural rules shared by the nn properties
+from ..cond import CondSpace  # noqa: E402
+from ..rf import RFContext, Poly  # noqa: E402
+from ..libmodels import dict_rewrite  # noqa: E402
+from ..rules import rewrite  # noqa: E402
+
+
+def resolve_callee(nn, q, call):
+    """(callee qualname, self term or None) for calls to nn functions, constructors and methods of constructed / self objects."""
+    c = strip(call)
+    f = strip(c[1])
+    P = nn.P
+    if head(f) == "glob":
+        if f[1] in P.functions:
+            return f[1], None
+        if f[1] in P.classes:
+            init = P.find_method(f[1], "__init__")
+            return init, ("param", "self")
+    if head(f) == "attr":
+        obj = strip(f[1])
+        if is_call(obj) and head(strip(obj[1])) == "glob" and strip(obj[1])[1] in P.classes:
+            m = P.find_method(strip(obj[1])[1], f[2])
+            return m, obj
+        if obj == ("param", "self") and P.functions[q].cls:
+            m = P.find_method(P.functions[q].cls, f[2])
+            return m, obj
+    return None, None
+
+
+def check_role_forwarding(r, rule, q, call, node, allow=None, key=""):
+    """Every API quantity the callee knows by role must be bound to the caller's term of the same role."""
+    nn = get_nn(r)
+    callee, selft = resolve_callee(nn, q, call)
+    if callee is None:
+        raise AnalysisBroken(f"{q}: cannot resolve callee of {show(call, 80)}")
+    cs = nn.summary(callee)
+    bind = nn.A.bind_call(cs, strip(call), self_term=selft)
+    where = wh(r, q, node)
+    if bind is None:
+        raise AnalysisBroken(f"{q}: cannot bind arguments of {show(call, 80)} to {callee}")
+    allow = allow or {}
+    n = 0
+    caller_roles = set(nn.R.of(q).values())
+    for name, default, kind in cs.params:
+        pt = ("param", name)
+        role = nn.R.of(callee).get(pt)
+        if role is None or name == "self":
+            continue
+        arg = bind.get(pt)
+        explicit = arg is not None and arg != default
+        arole = nn.R._role_of(q, arg) if arg is not None else None
+        if role in allow:
+            ok = allow[role](arg, arole)
+            exp = f"{role} bound as specified"
+        elif role in caller_roles:
+            ok = arole == role
+            exp = f"the caller's {role}"
+        else:
+            continue
+        n += 1
+        r.rep.ob(rule, f"{q}->{callee.split('.', 2)[-1]}", ok, f"{name} receives {exp}", where, expected=exp,
+                 found=(show(arg, 60) + (f" [{arole}]" if arole else "")) if explicit else f"not forwarded (callee default {show(default, 30)})", key=f"{key}forward {name}")
+    return n
+
+
+def check_roles_consistent(r, rule, callees=None):
+    """No internal function receives two different API quantities in one parameter (e.g. swapped argument slots)."""
+    nn = get_nn(r)
+    bad = [c for c in nn.R.conflicts if callees is None or c[0] in callees]
+    for q, key, r1, r2 in bad:
+        r.rep.ob(rule, q, False, f"parameter {show(key, 30)} receives one API quantity from every call site", wh(r, q, nn.P.functions[q].node),
+                 expected=r1, found=f"{r1} from one caller, {r2} from another (argument slots swapped?)", key=f"role conflict {show(key, 30)}")
+    if not bad:
+        r.rep.ob(rule, "pyrepseq.nn", True, "API quantities are bound consistently across internal call sites", "pyrepseq/nn.py:1", key="roles consistent")
+
+
+def check_readonly_method(r, rule, q):
+    """The method never writes to the object it is called on (attributes, items of attribute containers, in-place methods)."""
+    from ..ssa import MUTATORS
+    nn = get_nn(r)
+    s = nn.summary(q)
+    r.rep.analysed(q)
+    selft = ("param", "self")
+
+    def rooted(t):
+        t = strip(t)
+        while head(t) in ("sub", "attr", "item", "iter"):
+            if head(t) == "attr" and strip(t[1]) == selft:
+                return True
+            t = strip(t[1] if head(t) != "iter" else t[2])
+        return t == selft
+    writes = []
+    for e in s.events:
+        if e.kind in ("setattr", "augattr") and strip(e["obj"]) == selft:
+            writes.append((e, f"self.{e['name']} = ..."))
+        elif e.kind in ("setitem", "augitem", "delitem") and rooted(e["obj"]):
+            writes.append((e, f"{show(e['obj'], 40)}[...] = ..."))
+        elif e.kind == "call" and is_mcall(e["term"]) and strip(e["term"][1])[2] in MUTATORS and rooted(strip(e["term"][1])[1]):
+            writes.append((e, show(e["term"], 70)))
+    if not writes:
+        r.rep.ob(rule, q, True, "lookup has an empty write set on the database object (repeated queries see the same index)", wh(r, q, s.func.node), key="read-only")
+    for e, what in writes:
+        r.rep.ob(rule, q, False, "lookup writes to the database object, so a later query may see a different index", wh(r, q, e.node),
+                 expected="no store to self.*", found=what, key=f"write {what}")
+
+
+def _affine_range(nn, q, it, lo_expect, hi_role):
+    """range(lo, hi) with lo == lo_expect and hi == <role term> + 1 (RF equality)."""
+    it = strip(it)
+    if not is_call(it, "builtins.range") or it[3]:
+        return None
+    a = it[2]
+    lo, hi = (const(0), a[0]) if len(a) == 1 else (a[0], a[1]) if len(a) == 2 else (None, None)
+    if lo is None:
+        return None
+    ctx = RFContext()
+    rl, rh = ctx.rf(lo), ctx.rf(hi)
+    roles = {nn.R._role_of(q, t) for t in walk(hi) if head(t) in ("param", "attr", "item")}
+    ok_lo = rl.is_const() and rl.const_value() <= lo_expect
+    k_terms = [t for t in walk(hi) if nn.R._role_of(q, t) == hi_role]
+    if not k_terms:
+        return (ok_lo, False, f"upper bound {show(hi, 40)} does not mention {hi_role}")
+    kt = ctx.rf(k_terms[0])
+    ok_hi = (rh - kt).is_const() and (rh - kt).const_value() >= 1
+    return (ok_lo, ok_hi, f"range({show(lo, 20)}, {show(hi, 40)})")
+
+
+def check_bfs(r, rule):
+    """_generate_neighbors is the breadth-first ball of DESIGN A.4: start {query: 0}; depth range covers [1, k]; every visited string is
+    expanded (snapshot of the accumulating dict); only unseen strings are inserted, with the current depth; generator chosen by the flag."""
+    nn = get_nn(r)
+    q = MOD + "_generate_neighbors"
+    s = nn.summary(q)
+    r.rep.analysed(q)
+    where = wh(r, q, s.func.node)
+    ret = s.ret
+    base = ret
+    if head(strip(ret)) == "after":
+        raise AnalysisBroken(f"{q}: returned accumulator is rebound inside the loops (idiom outside list)")
+    init = strip(ret)
+    query = ("param", s.params[0][0])
+    ok_init = head(init) == "dict" and len(init[1]) == 1 and strip(init[1][0][0]) == query and is_const(init[1][0][1], 0)
+    r.rep.ob(rule, q, ok_init, "ball starts as {query: 0}", where, expected="{query: 0}", found=show(init, 60), key="bfs init")
+    ins = [e for e in s.events_of("setitem") if e["obj"] == ret]
+    if len(ins) != 1:
+        raise AnalysisBroken(f"{q}: expected exactly one insertion into the ball, found {len(ins)}")
+    e = ins[0]
+    loops = [s.loops[l] for l in e.ctx.loops]
+    if len(loops) != 3:
+        raise AnalysisBroken(f"{q}: expected a 3-deep loop nest around the insertion, found {len(loops)}")
+    depth, visit, gen = loops
+    ar = _affine_range(nn, q, depth.iterable, 1, "K")
+    if ar is None:
+        raise AnalysisBroken(f"{q}: depth loop iterable {show(depth.iterable, 60)} is not range(lo, hi)")
+    r.rep.ob(rule, q, ar[0] and ar[1], "depth loop covers 1..max_edits", wh(r, q, depth.node), expected="range(1, max_edits + 1)", found=ar[2], key="bfs depth range")
+    v = strip(visit.iterable)
+    snap = (is_mcall(v, "copy") and strip(strip(v[1])[1]) == strip(ret)) or \
+           (is_call(v) and head(strip(v[1])) == "glob" and strip(v[1])[1] in ("builtins.list", "builtins.tuple", "builtins.dict", "builtins.set") and v[2] and strip(v[2][0]) == strip(ret))
+    r.rep.ob(rule, q, snap, "every string visited so far is expanded (snapshot of the ball)", wh(r, q, visit.node), expected="for seq in ans.copy()", found=show(v, 60), key="bfs snapshot")
+    gi = strip(gen.iterable)
+    okg = head(gi) == "call" and len(gi[2]) == 1 and not gi[3] and strip(gi[2][0]) == visit.elem
+    fn = strip(gi[1]) if head(gi) == "call" else None
+    flag = ("param", s.params[2][0]) if len(s.params) >= 3 else None
+    want = ("ite", flag, ("glob", "pyrepseq.distance.hamming_neighbors"), ("glob", "pyrepseq.distance.levenshtein_neighbors"))
+    okf = fn == want or fn == ("ite", ("un", "not", flag), want[3], want[2])
+    r.rep.ob(rule, q, okg and okf, "neighbours of the visited string come from hamming_neighbors iff the Hamming flag is set, else levenshtein_neighbors, default alphabet", wh(r, q, gen.node),
+             expected="neighbor_func(seq) with neighbor_func = hamming_neighbors if is_hamming else levenshtein_neighbors", found=show(gi, 100), key="bfs generator")
+    key_ok = strip(e["index"]) == gen.elem
+    val_ok = strip(e["value"]) == depth.elem
+    r.rep.ob(rule, q, key_ok and val_ok, "an unseen neighbour is inserted with the current depth", wh(r, q, e.node), expected="ans[new_seq] = edit_distance", found=f"ans[{show(e['index'], 30)}] = {show(e['value'], 30)}", key="bfs insert")
+    gl = [(strip(a), p) for gt, pol in e.ctx.guards for a, p in lits(gt, pol)]
+    unseen = [(a, p) for a, p in gl if head(a) == "cmp" and a[1] in ("in", "notin") and strip(a[2]) == gen.elem and strip(a[3]) == strip(ret)]
+    others = [(a, p) for a, p in gl if (a, p) not in unseen]
+    ok_guard = len(unseen) == 1 and ((unseen[0][0][1] == "notin") == unseen[0][1]) and not others
+    r.rep.ob(rule, q, ok_guard, "the only guard of the insertion is 'not seen before' (a shorter path keeps its smaller depth, nothing else is skipped)", wh(r, q, e.node),
+             expected="if new_seq not in ans", found="; ".join(("" if p else "not ") + show(a, 50) for a, p in gl) or "no guard", key="bfs guard")
+
+
+def check_comb_gen(r, rule):
+    """_comb_gen(seq, k) = {seq} U { seq with the positions of I deleted : 1 <= |I| <= k }  (hypothesis of lemma A.1)."""
+    nn = get_nn(r)
+    q = MOD + "_comb_gen"
+    s = nn.summary(q)
+    r.rep.analysed(q)
+    seq = ("param", s.params[0][0])
+    where = wh(r, q, s.func.node)
+    ret = strip(s.ret)
+    # result accumulator
+    if head(ret) != "after":
+        raise AnalysisBroken(f"{q}: returned value {show(ret, 60)} is not a loop accumulator")
+    outer = s.loops.get(ret[1])
+    name = ret[2]
+    init = strip(outer.init.get(name, NONE))
+    is_set0 = (is_call(init, "builtins.set") and len(init[2]) == 1 and head(strip(init[2][0])) == "list" and tuple(map(strip, strip(init[2][0])[1])) == (seq,)) or \
+              (head(init) == "set" and tuple(map(strip, init[1])) == (seq,))
+    r.rep.ob(rule, q, is_set0, "the variant set starts as {seq} and is a set (0 deletions included, duplicates collapse)", where, expected="set([seq])", found=show(init, 60), key="comb init")
+    ar = _affine_range(nn, q, outer.iterable, 1, "K")
+    if ar is None:
+        raise AnalysisBroken(f"{q}: outer loop iterable {show(outer.iterable, 60)} is not range(lo, hi)")
+    r.rep.ob(rule, q, ar[0] and ar[1], "number of deletions ranges over 1..max_edits", wh(r, q, outer.node), expected="range(1, max_edits + 1)", found=ar[2], key="comb edit range")
+    adds = [e for e in s.events_of("mutate") if e["name"] == name and e["method"] == "add"]
+    if len(adds) != 1 or len(adds[0].ctx.loops) != 2:
+        raise AnalysisBroken(f"{q}: expected one add() inside a 2-deep loop nest, found {len(adds)}")
+    e = adds[0]
+    subsets = s.loops[e.ctx.loops[1]]
+    si = strip(subsets.iterable)
+    ok_sub = is_call(si, "itertools.combinations") and len(si[2]) == 2 and strip(si[2][1]) == outer.elem
+    rng = strip(si[2][0]) if ok_sub else None
+    ok_rng = rng is not None and is_call(rng, "builtins.range") and len(rng[2]) == 1 and strip(rng[2][0]) in (("call", ("glob", "builtins.len"), (seq,), ()),)
+    r.rep.ob(rule, q, ok_sub and ok_rng, "deleted position sets are all subsets of range(len(seq)) whose size is the loop's number of deletions", wh(r, q, subsets.node),
+             expected="combinations(range(len(seq)), edit)", found=show(si, 80), key="comb subsets")
+    r.rep.ob(rule, q, not e.ctx.guards, "no variant is skipped", wh(r, q, e.node), expected="unguarded add", found=f"{len(e.ctx.guards)} guard(s)", key="comb unguarded")
+    # the variant string
+    v = strip(e["args"][0])
+    okv, why = _is_deletion_variant(s, v, seq, subsets.elem)
+    r.rep.ob(rule, q, okv, "each variant is seq with exactly the chosen positions removed", wh(r, q, e.node),
+             expected="''.join(pieces between consecutive deleted positions, offset 0 .. index, offset = index+1, tail to the end)", found=why, key="comb variant")
+
+
+def _is_deletion_variant(s, v, seq, indexes):
+    lenseq = ("call", ("glob", "builtins.len"), (seq,), ())
+    if not (is_mcall(v, "join") and is_const(strip(strip(v[1])[1]), "") and len(v[2]) == 1):
+        return False, f"not ''.join(...): {show(v, 60)}"
+    arg = strip(v[2][0])
+    # idiom 2: ''.join(c for k, c in enumerate(seq) if k not in indexes)
+    if head(arg) == "comp" and len(arg[3]) == 1:
+        elem, conds = arg[3][0]
+        it = strip(elem[3])
+        if is_call(it, "builtins.enumerate") and strip(it[2][0]) == seq and strip(arg[2]) == ("item", elem, 1) and len(conds) == 1:
+            c = strip(conds[0])
+            if head(c) == "cmp" and c[1] == "notin" and strip(c[2]) == ("item", elem, 0) and strip(c[3]) == strip(indexes):
+                return True, "comprehension idiom"
+        return False, f"comprehension outside idiom: {show(arg, 80)}"
+    # idiom 1: gap-building loop
+    if not (head(arg) == "mut" and arg[1] == "append" and len(arg[3]) == 1):
+        return False, f"joined value is not a piece list closed by a tail append: {show(arg, 80)}"
+    tail, body = strip(arg[3][0]), strip(arg[2])
+    if head(body) != "after":
+        return False, "piece list is not built by a loop"
+    lp = s.loops.get(body[1])
+    if lp is None or strip(lp.iterable) != strip(indexes):
+        return False, f"gap loop iterates {show(lp.iterable if lp else None, 40)}, not the chosen positions"
+    pname = body[2]
+    off_names = [n for n in lp.update if n != pname and n in lp.init]
+    if len(off_names) != 1:
+        return False, "gap loop must carry exactly the piece list and one offset"
+    off = off_names[0]
+    if not is_const(strip(lp.init[off]), 0):
+        return False, f"offset starts at {show(lp.init[off], 20)}, not 0"
+    init_list = strip(lp.init[pname])
+    if not (head(init_list) == "list" and not init_list[1]):
+        return False, "piece list does not start empty"
+    ctx = RFContext()
+    upd_off = ctx.rf(lp.update[off]) - ctx.rf(lp.elem)
+    if not (upd_off.is_const() and upd_off.const_value() == 1):
+        return False, f"offset update is {show(lp.update[off], 40)}, expected index + 1"
+    up = strip(lp.update[pname])
+    want_piece = ("sub", seq, ("slice", ("phi", lp.lid, off), lp.elem, NONE))
+    if not (head(up) == "mut" and up[1] == "append" and strip(up[2]) == ("phi", lp.lid, pname) and len(up[3]) == 1 and strip_all(up[3][0]) == strip_all(want_piece)):
+        return False, f"piece appended in the loop is {show(up, 80)}, expected seq[offset:index]"
+    t = strip_all(tail)
+    ok_tail = head(t) == "sub" and t[1] == seq and head(t[2]) == "slice" and t[2][1] == ("after", lp.lid, off) and (t[2][2] == NONE or t[2][2] == lenseq) and t[2][3] == NONE
+    if not ok_tail:
+        return False, f"tail piece is {show(tail, 60)}, expected seq[offset:]"
+    return True, "gap-loop idiom"
+
+
+def check_index_builder(r, rule):
+    """SymdelDB.__init__ files every position under every deletion variant produced with the constructor's max_edits (lemma A.1)."""
+    nn = get_nn(r)
+    q = MOD + "SymdelDB.__init__"
+    s = nn.summary(q)
+    r.rep.analysed(q)
+    where = wh(r, q, s.func.node)
+    target = None
+    for e in s.events_of("setattr"):
+        if e["name"] == "variant_dict":
+            target = e["value"]
+    if target is None:
+        raise AnalysisBroken(f"{q}: attribute variant_dict is not initialised (anchor vanished)")
+    mi = nn._map_local(q, target)
+    r.rep.ob(rule, q, mi is not None and mi["key"] == ("variant", "K"), "dictionary maps each <=max_edits-deletion variant of seqs[i] to positions i", where,
+             expected="key = variant from _comb_gen(seq, max_edits), value positions of enumerate(seqs)", found=str(mi and mi["key"]), key="index key")
+    # every path of the inner loop body inserts the position
+    ins = []
+    for e in s.events:
+        if e.kind == "setitem" and e["obj"] == target:
+            ins.append(e)
+        elif e.kind == "call" and is_mcall(e["term"], "append"):
+            recv = strip(strip(e["term"][1])[1])
+            if (head(recv) == "sub" and recv[1] == target) or (is_mcall(recv, "setdefault") and strip(recv[1])[1] == target):
+                ins.append(e)
+    if not ins:
+        raise AnalysisBroken(f"{q}: no insertion into variant_dict found")
+    loopsets = {e.ctx.loops for e in ins}
+    sp = CondSpace()
+    base = None
+    for e in ins:
+        for gt, pol in e.ctx.guards:
+            sp.collect(gt)
+    covered = True
+    cex = ""
+    for val in sp.valuations():
+        if not any(all(sp.truth(gt, val) == pol for gt, pol in e.ctx.guards) for e in ins):
+            covered, cex = False, sp.describe(val)
+            break
+    r.rep.ob(rule, q, covered and len(loopsets) == 1, "on every path through the loop body the position is filed under the variant", wh(r, q, ins[0].node),
+             expected="append when the key exists, new list otherwise", found="all paths insert" if covered else f"no insertion when {cex}", key="index every path")
+    # one and the same k for indexing and querying
+    n = 0
+    for fq in [x for x in nn.P.functions if x.startswith(MOD)]:
+        fs = nn.summary(fq)
+        for e in fs.calls(MOD + "_comb_gen"):
+            n += 1
+            a = strip(e["term"])[2]
+            role = nn.R._role_of(fq, a[1]) if len(a) > 1 else None
+            r.rep.ob(rule, fq, role == "K", "deletion variants are generated with the database's max_edits on both sides (same k for indexing and querying)", wh(r, fq, e.node),
+                     expected="_comb_gen(seq, max_edits)", found=show(e["term"], 70), key=f"comb k {fq}")
+    if n < 2:
+        raise AnalysisBroken(f"only {n} call(s) to _comb_gen found, floor is 2")
+
+
+# =========================================================================== kd-tree configuration (C04 / C11)
+import math  # noqa: E402
+from ..rules import Equiv, canon_params, check_equiv, std_rewrites, guards_imply  # noqa: E402
+
+
+def _kw_of_call(call):
+    """Keyword view of a call, with ``**{...}`` literal dictionaries merged in."""
+    c = strip(call)
+    kw = {}
+    for k, v in c[3]:
+        if k == "**":
+            d = rewrite(strip_all(v), dict_rewrite)
+            if head(d) != "dmerge":
+                return None
+            for layer in d[1]:
+                if layer[0] != "lit":
+                    return None
+                for kk, vv in layer[1]:
+                    if not is_const(kk):
+                        return None
+                    kw[kk[2]] = vv
+        else:
+            kw[k] = v
+    return kw
+
+
+def check_kd(r, rule):
+    nn = get_nn(r)
+    q = MOD + "_kdtree_leven"
+    s = nn.summary(q)
+    r.rep.analysed(q)
+    balls = [e for e in s.events_of("call") if is_mcall(e["term"], "query_ball_point")]
+    if len(balls) != 1:
+        raise AnalysisBroken(f"{q}: expected one query_ball_point call, found {len(balls)}")
+    e = balls[0]
+    call = strip(e["term"])
+    where = wh(r, q, e.node)
+    kw = _kw_of_call(call)
+    if kw is None:
+        raise AnalysisBroken(f"{q}: keyword arguments of query_ball_point are not a literal dictionary")
+    pts = call[2][0] if call[2] else kw.get("x")
+    rad = kw.get("r", call[2][1] if len(call[2]) > 1 else None)
+    tree = strip(strip(call[1])[1])
+    # ---- radius  r = c * max_edits + d,  c >= sqrt(2), d >= 0
+    ok, found = False, "no radius argument"
+    if rad is not None:
+        ctx = RFContext()
+        rr = ctx.rf(rad)
+        kterms = [t for t in walk(strip_all(rad)) if nn.R._role_of(q, t) == "K"]
+        found = ctx.show_rf(rr)
+        if kterms and rr.d.is_const():
+            kid = [a for a in rr.n.atoms() if ctx.atoms[a] == ("term", strip_all(kterms[0]))]
+            if kid:
+                kid = kid[0]
+                c = d = 0.0
+                lin = True
+                for mono, coef in rr.n.d.items():
+                    val = float(coef) / float(rr.d.const_value())
+                    kexp = 0
+                    for a, ex in mono:
+                        if a == kid:
+                            kexp = ex
+                        else:
+                            desc = ctx.atoms[a]
+                            if desc[0] == "fn" and desc[1] == "pow" and desc[2][0].is_const() and desc[2][1].is_const():
+                                val *= float(desc[2][0].const_value()) ** (float(desc[2][1].const_value()) * ex)
+                            else:
+                                lin = False
+                    if kexp == 1:
+                        c += val
+                    elif kexp == 0:
+                        d += val
+                    else:
+                        lin = False
+                ok = lin and c >= math.sqrt(2) - 1e-12 and d >= 0
+                found += f"  (= {c:.6g} * max_edits + {d:.6g})" if lin else "  (not affine in max_edits)"
+    r.rep.ob(rule + "-R", q, ok, "ball radius is c*max_edits + d with c >= sqrt(2), d >= 0 (lemma A.2: no smaller multiple is sound)", where,
+             expected="r >= sqrt(2) * max_edits", found=found, key="kd radius")
+    # ---- same matrix for tree and query, exact query, p >= 2
+    okt = is_call(tree, "scipy.spatial.KDTree") and tree[2] and pts is not None and strip_all(tree[2][0]) == strip_all(pts)
+    r.rep.ob(rule + "-CFG", q, okt, "the points queried are the points the tree was built from (row k of the answer belongs to sequence k)", where,
+             expected="KDTree(matrix).query_ball_point(matrix, ...)", found=f"tree on {show(tree[2][0] if is_call(tree) and tree[2] else tree, 50)}, query {show(pts, 50)}", key="kd same matrix")
+    p = kw.get("p")
+    okp = p is None or (is_const(p) and isinstance(p[2], (int, float)) and p[2] >= 2) or strip(p) == INF or strip(p) in (("glob", "numpy.inf"), ("glob", "math.inf"))
+    r.rep.ob(rule + "-CFG", q, okp, "Minkowski norm p >= 2 (||.||_p <= ||.||_2, so the sqrt(2)k ball stays a superset)", where, expected="p absent or >= 2", found=show(p) if p else "absent", key="kd p")
+    eps = kw.get("eps")
+    r.rep.ob(rule + "-CFG", q, eps is None or is_const(eps, 0) or is_const(eps, 0.0), "exact ball query (eps = 0)", where, expected="eps absent or 0", found=show(eps) if eps else "absent", key="kd eps")
+    rl = kw.get("return_length")
+    r.rep.ob(rule + "-CFG", q, rl is None or is_const(rl, False), "ball query returns index lists, not counts", where, expected="return_length absent", found=show(rl) if rl else "absent", key="kd return_length")
+    # ---- matrix = [encode(x, compression) for x in seqs'] over the container handed to _to_triplets
+    mat = strip(pts) if pts is not None else None
+    trip = [ev for ev in s.calls(MOD + "_to_triplets")]
+    if len(trip) != 1:
+        raise AnalysisBroken(f"{q}: expected one call to _to_triplets")
+    targs = strip(trip[0]["term"])[2]
+    okm = mat is not None and head(mat) == "comp" and len(mat[3]) == 1 and not mat[3][0][1] and is_call(mat[2], MOD + "_histogram_encode") \
+        and strip(strip(mat[2])[2][0]) == mat[3][0][0] and strip_all(mat[3][0][0][3]) == strip_all(targs[0])
+    r.rep.ob(rule + "-CFG", q, okm, "row k of the matrix encodes element k of the container whose positions the workers report", wh(r, q, trip[0].node),
+             expected="[_histogram_encode(x, compression) for x in seqs] with the same seqs passed to _to_triplets", found=show(mat, 90), key="kd matrix rows")
+    oky = len(targs) > 1 and strip_all(targs[1]) == strip_all(call)
+    r.rep.ob(rule + "-CFG", q, oky, "the candidate lists handed to the workers are the unmodified ball-query result", wh(r, q, trip[0].node),
+             expected="_to_triplets(seqs, tree.query_ball_point(matrix, ...), ...)", found=show(targs[1], 70) if len(targs) > 1 else "missing", key="kd candidates")
+    if okm:
+        comp_arg = strip(mat[2])[2][1] if len(strip(mat[2])[2]) > 1 else dict(strip(mat[2])[3]).get("compression")
+        r.rep.ob(rule + "-CFG", q, comp_arg is not None and nn.R._role_of(q, comp_arg) == "COMP", "compression reaches only the encoder", wh(r, q, e.node),
+                 expected="_histogram_encode(x, compression)", found=show(comp_arg, 30), key="kd compression")
+
+
+def check_encoder(r, rule):
+    """_histogram_encode: every character increments exactly one coordinate, chosen by a character-only map, by exactly 1 (hypothesis of A.2)."""
+    nn = get_nn(r)
+    q = MOD + "_histogram_encode"
+    s = nn.summary(q)
+    r.rep.analysed(q)
+    seq = ("param", s.params[0][0])
+    incs = [e for e in s.events if e.kind in ("augitem", "setitem") and strip_all(e["obj"]) == strip_all(s.ret)]
+    where = wh(r, q, s.func.node)
+    if len(incs) != 1:
+        r.rep.ob(rule, q, False, "exactly one coordinate update per character", where, expected="one 'ans[map[char]] += 1'", found=f"{len(incs)} stores into the result vector", key="enc one store")
+        return
+    e = incs[0]
+    lp = [s.loops[l] for l in e.ctx.loops]
+    ok_loop = len(lp) == 1 and strip(lp[0].iterable) == seq and not e.ctx.guards
+    r.rep.ob(rule, q, ok_loop, "the update runs once for every character of the sequence, unguarded", wh(r, q, e.node), expected="for char in cdr3: (no guard)",
+             found=f"{len(lp)} loop(s) over {show(lp[0].iterable, 30) if lp else '-'}; {len(e.ctx.guards)} guard(s)", key="enc loop")
+    ok_inc = e.kind == "augitem" and e["op"] == "+" and is_const(e["value"], 1)
+    r.rep.ob(rule, q, ok_inc, "the coordinate is incremented by exactly 1", wh(r, q, e.node), expected="+= 1", found=f"{e.get('op', '=')} {show(e['value'], 30)}", key="enc increment")
+    idx = strip(e["index"])
+    ok_idx = False
+    found = show(idx, 80)
+    if lp and head(idx) == "sub" and strip(idx[2]) == lp[0].elem:
+        m = strip_all(idx[1])
+        # the map must not depend on the loop (position in the sequence)
+        dep = any(x == ("iter",) + lp[0].elem[1:] or (head(x) == "phi" and x[1] == lp[0].lid) for x in walk(m))
+        ok_idx = not dep and head(m) in ("comp", "dict", "glob", "call")
+    r.rep.ob(rule, q, ok_idx, "the coordinate is chosen by a map of the character only (not of its position)", wh(r, q, e.node), expected="ans[position_map[char]]", found=found, key="enc map")
+    z = strip(s.ret)
+    r.rep.ob(rule, q, is_call(z, "numpy.zeros"), "the vector starts at zero", where, expected="np.zeros(dimension)", found=show(z, 60), key="enc zeros")
+
+
+def check_extract(r, rule):
+    """_cal_levenshtein: extract(seqs[i], seqs[choices], score_cutoff=max_edits, scorer=..., limit=max_returns)."""
+    nn = get_nn(r)
+    q = MOD + "_cal_levenshtein"
+    s = nn.summary(q)
+    r.rep.analysed(q)
+    ex = s.calls("rapidfuzz.process.extract")
+    if len(ex) != 1:
+        raise AnalysisBroken(f"{q}: expected one rapidfuzz.process.extract call, found {len(ex)}")
+    e = ex[0]
+    c = e["term"]
+    where = wh(r, q, e.node)
+    cut, lim = get_arg(c, None, "score_cutoff"), get_arg(c, None, "limit")
+    r.rep.ob(rule, q, cut is not None and nn.R._role_of(q, cut) == "K", "candidates are cut at max_edits (score_cutoff)", where, expected="score_cutoff = max_edits slot of the parameter block",
+             found=show(cut, 40) if cut else "absent", key="extract cutoff")
+    r.rep.ob(rule, q, lim is not None and nn.R._role_of(q, lim) == "LIMIT", "the number of results is bounded by max_returns, not by the library default of 5", where,
+             expected="limit = max_returns slot of the parameter block", found=show(lim, 40) if lim else "absent (library default limit=5)", key="extract limit")
+    for bad in ("processor", "score_hint"):
+        if get_arg(c, None, bad) is not None:
+            r.rep.ob(rule, q, False, f"extract is called without {bad}", where, expected="absent", found=show(get_arg(c, None, bad), 40), key=f"extract {bad}")
+
+
+def check_hash_based(r, rule):
+    nn = get_nn(r)
+    q = MOD + "hash_based"
+    s = nn.summary(q)
+    r.rep.analysed(q)
+    calls = [e for e in s.events_of("call") if resolve_callee(nn, q, e["term"])[0] == MOD + "LookupDB.lookup"]
+    if len(calls) != 1:
+        raise AnalysisBroken(f"{q}: expected one LookupDB.lookup call, found {len(calls)}")
+    e = calls[0]
+    c = strip(e["term"])
+    where = wh(r, q, e.node)
+    ctor = strip(strip(c[1])[1])
+    ref = ctor[2][0] if ctor[2] else None
+    qry = get_arg(c, 0, "seqs2")
+    same = ref is not None and qry is not None and strip_all(ref) == strip_all(qry)
+    r.rep.ob(rule, q, same and nn.R._role_of(q, ref) == "SEQS", "query and reference of the self search are the same (normalised) container", where,
+             expected="LookupDB(seqs).lookup(seqs, ...)", found=f"LookupDB({show(ref, 40)}).lookup({show(qry, 40)})", key="hb same object")
+    pd = get_arg(c, None, "pdist_mode") or (c[2][2] if len(c[2]) > 2 else None)
+    r.rep.ob(rule, q, pd is not None and is_const(pd, True), "the diagonal is filtered: pdist_mode=True exactly because both collections are the same object", where,
+             expected="pdist_mode=True", found=show(pd) if pd else "absent (default False)", key="hb pdist flag")
+    check_role_forwarding(r, rule, q, c, e.node)
+    r.rep.ob(rule, q, strip_all(s.ret) == strip_all(c), "the lookup result is returned unmodified", where, expected="return lookupdb.lookup(...)", found=show(s.ret, 60), key="hb return")
+
+
+def check_hamming_replacement(r, rule):
+    nn = get_nn(r)
+    q = MOD + "_hamming_replacement"
+    s = nn.summary(q)
+    r.rep.analysed(q)
+    spec = r.A.summarize_source("def _hamming_replacement(seq_a, seq_b):\n    if len(seq_a) != len(seq_b):\n        return np.inf\n    return hamming(seq_a, seq_b)\n", "_hamming_replacement", "pyrepseq.nn")
+    code = subst(s.ret, canon_params(s))
+    sp = subst(spec.ret, canon_params(spec))
+    check_equiv(r.rep, rule, q, "unequal lengths give an infinite distance, equal lengths the rapidfuzz Hamming distance of the two arguments", code, sp, wh(r, q, s.func.node),
+                eq=Equiv(rewrites=std_rewrites(), modelled={"rapidfuzz.distance.Hamming.distance", "builtins.float"}), key="hamming replacement")
+
+
+def check_buckets(r, rule):
+    """kdtree Hamming branch: buckets partition positions by len(seq); every bucket is searched on seqs[indices]; results are mapped back."""
+    nn = get_nn(r)
+    q = MOD + "kdtree"
+    s = nn.summary(q)
+    r.rep.analysed(q, MOD + "_to_len_bucket")
+    mode = ("hamming", "inf")
+    sites = nn.sites(q, mode)
+    seqs = nn.root(role_term(nn, q, "SEQS"))[0]
+    if not sites:
+        raise AnalysisBroken(f"{q}: no triplet insertion found in the Hamming branch (anchor vanished)")
+    for st in sites:
+        where = wh(r, q, st.node)
+        if st.kind == "bulk":
+            sp = st.extra["spaces"]
+            r.rep.ob(rule + "-IST", q, sp[0] == seqs and sp[1] == seqs, "triplets produced for a sub-container are mapped back to input positions before they are returned (IST-5)", where,
+                     expected=f"positions in {show(seqs, 30)}", found=f"positions in {show(sp[0], 60)} appended unmapped", key="bucket positions unmapped")
+            continue
+        sa, sb = nn.idx_space(q, st.a), nn.idx_space(q, st.b)
+        r.rep.ob(rule + "-IST", q, sa == seqs and sb == seqs, "positions reported in Hamming mode refer to the original input order (IST-5)", where,
+                 expected=f"positions in {show(seqs, 30)}", found=f"({show(sa, 50)}, {show(sb, 50)})", key="bucket positions")
+        # the distance component passes through unchanged from the same local triplet
+        d, a, b = strip(st.d), strip(st.a), strip(st.b)
+        okd = head(d) == "item" and d[2] == 2 and head(a) == "sub" and head(b) == "sub" and strip(a[2]) == ("item", d[1], 0) and strip(b[2]) == ("item", d[1], 1) and strip(a[1]) == strip(b[1])
+        r.rep.ob(rule + "-IST", q, okd, "each local triplet (i, j, d) becomes (indices[i], indices[j], d) with one and the same position list", where,
+                 expected="(indices[i], indices[j], dist)", found=f"({show(a, 40)}, {show(b, 40)}, {show(d, 30)})", key="bucket remap")
+        # sub-search receives the sub-container of exactly those positions
+        base = strip(d[1])[-1] if okd else None
+        if base is not None and is_call(base, MOD + "_kdtree_leven"):
+            arg0 = strip(strip(base)[2][0])
+            okc = head(arg0) == "sub" and strip(arg0[2]) == strip(a[1]) and nn.root(arg0[1])[0] == seqs and nn.root(arg0[1])[1]
+            r.rep.ob(rule + "-IST", q, okc, "the bucket search runs on seqs[indices] of a normalised container with the same position list", where,
+                     expected="_kdtree_leven(ensure_numpy(seqs)[indices], ...)", found=show(arg0, 70), key="bucket subcontainer")
+            check_role_forwarding(r, rule + "-BIND", q, base, st.node, allow={"SEQS": lambda a_, ro: True, "OT": lambda a_, ro: a_ is not None and is_const(a_, "triplets"),
+                                         "CD": lambda a_, ro: ro == "CD" or is_const(a_, "hamming"), "MCD": lambda a_, ro: ro == "MCD" or a_ in (INF, FINITE)}, key="hamming ")
+    # bucket key
+    bq = MOD + "_to_len_bucket"
+    bs = nn.summary(bq)
+    mi = nn._map_local(bq, bs.ret) if head(bs.ret) == "alloc" else None
+    r.rep.ob(rule + "-BKT", bq, mi is not None and mi["key"] == ("len",), "buckets are keyed by len(seq) and hold positions of the input", wh(r, bq, bs.func.node),
+             expected="ans[len(seq)].append(index) over enumerate(seqs)", found=str(mi and (mi["key"], show(mi["space"], 30))), key="bucket key")
+    if mi is not None:
+        ins = [e for e in bs.events if e.kind == "call" and is_mcall(e["term"], "append")]
+        unguarded = any(not e.ctx.guards for e in ins)
+        r.rep.ob(rule + "-BKT", bq, unguarded, "every element lands in exactly one length class (the append is unconditional)", wh(r, bq, bs.func.node), expected="unguarded append",
+                 found="guarded append" if not unguarded else "ok", key="bucket all paths")
+    # final output built on the caller's container
+    for e in s.calls(MOD + "_make_output"):
+        c = strip(e["term"])
+        if len(c[2]) >= 3:
+            r.rep.ob(rule + "-IST", q, nn.root(c[2][2])[0] == seqs, "the Hamming result is shaped by the caller's collection", wh(r, q, e.node), expected="_make_output(ans, output_type, seqs)",
+                     found=show(c, 70), key="bucket make_output")
+
+
+# =========================================================================== output format / validation / typestate (C10)
+def _accum_component(s, term, triplets):
+    """k when ``term`` is a list accumulator collecting triplet[k] over ``for triplet in triplets`` (append or += [..]); else None."""
+    t = strip(term)
+    if head(t) == "comp" and t[1] == "list" and len(t[3]) == 1 and not t[3][0][1] and strip(t[3][0][0][3]) == triplets:
+        e = strip(t[2])
+        if head(e) == "sub" and strip(e[1]) == t[3][0][0] and is_const(e[2]) and isinstance(e[2][2], int):
+            return e[2][2]
+        return None
+    if head(t) != "after":
+        return None
+    lp = s.loops.get(t[1])
+    if lp is None or strip(lp.iterable) != triplets:
+        return None
+    init = strip(lp.init.get(t[2], NONE))
+    if not (head(init) == "list" and not init[1]):
+        return None
+    upd = strip(lp.update.get(t[2], NONE))
+    val = None
+    if head(upd) == "bin" and upd[1] == "+" and strip(upd[2]) == ("phi", lp.lid, t[2]) and head(strip(upd[3])) == "list" and len(strip(upd[3])[1]) == 1:
+        val = strip(strip(upd[3])[1][0])
+    elif head(upd) == "mut" and upd[1] == "append" and strip(upd[2]) == ("phi", lp.lid, t[2]) and len(upd[3]) == 1:
+        val = strip(upd[3][0])
+    if val is None:
+        return None
+    if head(val) == "sub" and strip(val[1]) == lp.elem and is_const(val[2]) and isinstance(val[2][2], int):
+        return val[2][2]
+    if head(val) == "item" and strip(val[1]) == lp.elem:
+        return val[2]
+    return None
+
+
+MAKE_OUTPUT_SPEC = '''
+def _make_output(triplets, output_type, seqs, seqs2=None):
+    if output_type == "triplets":
+        return TRIPLETS(triplets)
+    if output_type == "coo_matrix":
+        return COO(triplets, seqs, seqs2)
+    return COO(triplets, seqs, seqs2).toarray()
+'''
+
+
+def check_make_output(r, rule):
+    nn = get_nn(r)
+    q = MOD + "_make_output"
+    s = nn.summary(q)
+    r.rep.analysed(q)
+    trip, ot, seqs, seqs2 = (("param", p[0]) for p in s.params[:4])
+    where = wh(r, q, s.func.node)
+    state = {"coo": 0}
+
+    def rw(t):
+        # list(triplets) if type(triplets) != list else triplets   ->  TRIPLETS(triplets)
+        if head(t) == "ite":
+            a, b = strip(t[2]), strip(t[3])
+            for x, y in ((a, b), (b, a)):
+                if is_call(x, "builtins.list") and x[2] and strip(x[2][0]) == trip and y == trip:
+                    return ("call", ("unbound", "TRIPLETS"), (trip,), ())
+        if t == trip:
+            return t
+        if is_call(t, "scipy.sparse.coo_matrix") or is_call(t, "scipy.sparse.coo_array"):
+            state["coo"] += 1
+            ok, why = _coo_ok(r, rule, nn, s, t, trip, seqs, seqs2, where)
+            if ok:
+                return ("call", ("unbound", "COO"), (trip, seqs, seqs2), ())
+        return t
+    code = rewrite(strip_all(s.ret), rw)
+    # a bare 'triplets' leaf is also the triplet list (already a list)
+    code = rewrite(code, lambda t: t)
+    spec = r.A.summarize_source(MAKE_OUTPUT_SPEC, "_make_output", "pyrepseq.nn")
+    sp = spec.ret
+    eq = Equiv(modelled={"scipy.sparse.coo_matrix", "scipy.sparse.coo_array", "builtins.list", "builtins.type", "builtins.len"})
+    # accept returning the list itself
+    code = _triplets_leaf(code, trip)
+    check_equiv(r.rep, rule, q, "'triplets' returns the triplet list, 'coo_matrix' the COO matrix, anything else ('ndarray') its dense form", code, sp, where, eq=eq, key="dispatch")
+    if not state["coo"]:
+        raise AnalysisBroken(f"{q}: no coo_matrix construction found (anchor vanished)")
+
+
+def _triplets_leaf(code, trip):
+    from ..ssa import leaves
+
+    def fix(t):
+        if head(t) == "ite":
+            return ("ite", t[1], fix(t[2]), fix(t[3]))
+        return ("call", ("unbound", "TRIPLETS"), (trip,), ()) if strip(t) == trip else t
+    return fix(code)
+
+
+def _coo_ok(r, rule, nn, s, call, trip, seqs, seqs2, where):
+    q = s.func.qualname
+    c = strip(call)
+    arg = strip(c[2][0]) if c[2] else None
+    ok_shape = ok_parts = False
+    found = show(c, 120)
+    if arg is not None and head(arg) == "tuple" and len(arg[1]) == 2 and head(strip(arg[1][1])) == "tuple" and len(strip(arg[1][1])[1]) == 2:
+        data, (row, col) = arg[1][0], strip(arg[1][1])[1]
+        ks = [_accum_component(s, x, trip) for x in (data, row, col)]
+        ok_parts = ks == [2, 1, 0]
+        r.rep.ob(rule, q, ok_parts, "matrix entry [r, q] = d for each triplet (q, r, d): data <- triplet[2], row <- triplet[1], col <- triplet[0]", where,
+                 expected="data, row, col collect components 2, 1, 0 of every triplet, in order", found=f"components {ks}", key="coo components")
+    else:
+        r.rep.ob(rule, q, False, "COO matrix is built as coo_matrix((data, (row, col)), shape=...)", where, expected="(data, (row, col))", found=found, key="coo form")
+    shape = dict(c[3]).get("shape")
+    L = lambda x: ("call", ("glob", "builtins.len"), (x,), ())
+    want = ("ite", ("cmp", "is", seqs2, NONE), ("tuple", (L(seqs), L(seqs))), ("tuple", (L(seqs), L(seqs2))))
+    if shape is not None:
+        eq = Equiv()
+        from ..cond import compare_trees
+        from ..rules import lift_ite
+        m, _ = compare_trees(lift_ite(strip_all(shape)), lift_ite(want), lambda a, b: strip_all(a) == strip_all(b))
+        ok_shape = not m
+    r.rep.ob(rule, q, ok_shape, "shape is (len(seqs), len(seqs2)), square when no second collection is given", where,
+             expected="(len(seqs), len(seqs)) if seqs2 is None else (len(seqs), len(seqs2))", found=show(shape, 100) if shape else "no shape argument", key="coo shape")
+    return ok_parts and ok_shape, ""
+
+
+VALIDATION_SPEC = [
+    ("seqs non-empty", "len(seqs) > 0", 0),
+    ("max_edits is a positive int", "type(max_edits) == int and max_edits > 0", 1),
+    ("max_returns is a positive int or None", "(type(max_returns) == int and max_returns > 0) or max_returns is None", 2),
+    ("n_cpu is a positive int", "type(n_cpu) == int and n_cpu > 0", 3),
+    ("max_custom_distance is a non-negative number", "type(max_cust_dist) in (int, float) and max_cust_dist >= 0", 5),
+    ("output_type is one of the three formats", "output_type in {'coo_matrix', 'triplets', 'ndarray'}", 6),
+]
+
+
+def check_validation(r, rule):
+    """_check_common_input holds, for each argument, an assertion equivalent to the specified test; every engine calls it first."""
+    from ..cond import compare_trees
+    nn = get_nn(r)
+    q = MOD + "_check_common_input"
+    s = nn.summary(q)
+    r.rep.analysed(q)
+    asserts = s.events_of("assert")
+    pnames = [p[0] for p in s.params]
+    for what, src, slot in VALIDATION_SPEC:
+        # write the spec with the function's own parameter names (positional correspondence)
+        spec_names = {"seqs": 0, "max_edits": 1, "max_returns": 2, "n_cpu": 3, "max_cust_dist": 5, "output_type": 6}
+        fsrc = "def v(" + ", ".join(pnames) + "):\n    return " + src + "\n"
+        for nme, idx in spec_names.items():
+            if idx < len(pnames) and pnames[idx] != nme:
+                fsrc = fsrc.replace(nme, pnames[idx])
+        sp = r.A.summarize_source(fsrc, "v", "pyrepseq.nn").ret
+        hit = None
+        for e in asserts:
+            if e.ctx.loops or e.ctx.tries:
+                continue
+            m, _ = compare_trees(("ite", strip_all(e["cond"]), ("const", "bool", True), ("const", "bool", False)),
+                                 ("ite", strip_all(sp), ("const", "bool", True), ("const", "bool", False)), lambda a, b: a == b)
+            if not m:
+                hit = e
+                break
+        r.rep.ob(rule, q, hit is not None, f"invalid input is rejected: {what}", wh(r, q, hit.node if hit else s.func.node), expected="assert " + src,
+                 found="equivalent assertion present" if hit else "no equivalent unconditional assertion", key=f"validate {what}")
+    # element type checks inside try/for
+    def elem_assert(container):
+        for e in asserts:
+            if len(e.ctx.loops) == 1:
+                lp = s.loops[e.ctx.loops[0]]
+                if strip(lp.iterable) == container:
+                    c = strip(e["cond"])
+                    if head(c) == "cmp" and c[1] == "in" and is_call(c[2], "builtins.type") and strip(c[2][2][0]) == lp.elem:
+                        types = {strip(x) for x in strip(c[3])[1]} if head(strip(c[3])) in ("set", "tuple", "list") else set()
+                        if ("glob", "builtins.str") in types and types <= {("glob", "builtins.str"), ("glob", "numpy.str_")}:
+                            return e
+        return None
+    for idx, nm in ((0, "seqs"), (7, "seqs2")):
+        if idx < len(pnames):
+            e = elem_assert(("param", pnames[idx]))
+            r.rep.ob(rule, q, e is not None, f"non-string elements of {nm} are rejected", wh(r, q, e.node if e else s.func.node), expected="assert type(seq) in {str, np.str_} for every element",
+                     found="present" if e else "missing", key=f"validate elements {nm}")
+    # every engine validates first, slot by slot
+    for name in ("kdtree", "hash_based", "symdel"):
+        fq = MOD + name
+        fs = nn.summary(fq)
+        r.rep.analysed(fq)
+        calls = fs.calls(q)
+        if not calls:
+            r.rep.ob(rule, fq, False, "arguments are validated before use", wh(r, fq, fs.func.node), expected="_check_common_input(...) first", found="no call", key="validate call")
+            continue
+        e = calls[0]
+        first = [x for x in fs.events if x.kind in ("call", "load_sub", "setattr", "setitem", "mutate")][0]
+        r.rep.ob(rule, fq, first is e and not e.ctx.guards and not e.ctx.loops, "validation is the first thing the engine does", wh(r, fq, e.node), expected="_check_common_input before any other use",
+                 found="first statement" if first is e else f"preceded by {first.kind} at line {first.line}", key="validate first")
+        check_role_forwarding(r, rule, fq, e["term"], e.node, key="validate ")
+
+
+def check_typestate(r, rule):
+    """IST-1: integer subscripting of a caller-supplied sequence container needs a positional (normalised) container: a pandas Series
+    subscripted with an integer is a label lookup."""
+    nn = get_nn(r)
+    n = 0
+    state = {}     # (func, param index) -> 'NORM' | 'RAW'  for private helpers, met over call sites
+    funcs = [q for q in nn.P.functions if q.startswith(MOD) and nn.P.functions[q].parent is None]
+
+    def arg_state(q, term):
+        t = strip(term)
+        root, norm = nn.root(t)
+        if norm:
+            return "NORM"
+        if head(root) == "sub":      # fancy / boolean indexing of a normalised array yields an array
+            return arg_state(q, root[1])
+        if head(root) == "param":
+            f = nn.P.functions[q]
+            idx = [p[0] for p in nn.summary(q).params].index(root[1]) if root[1] in [p[0] for p in nn.summary(q).params] else None
+            if idx is not None and (q, idx) in state:
+                return state[(q, idx)]
+            return "RAW"
+        if head(root) == "attr" and strip(root[1]) == ("param", "self"):
+            f = nn.P.functions[q]
+            init = nn.P.find_method(f.cls, "__init__") if f.cls else None
+            if init:
+                for e in nn.summary(init).events_of("setattr"):
+                    if e["name"] == root[2]:
+                        return arg_state(init, e["value"])
+            return "RAW"
+        if head(root) == "item" and root[1] == BLOCK:
+            for e in nn.summary(MOD + "_to_triplets").events_of("gstore"):
+                v = strip(e["value"])
+                if head(v) == "tuple" and root[2] < len(v[1]):
+                    return arg_state(MOD + "_to_triplets", v[1][root[2]])
+            return "RAW"
+        return "RAW"
+
+    # private helpers: parameter state = meet over call sites (two rounds reach the fixpoint for this call depth)
+    for _ in range(3):
+        for q in funcs:
+            for e in nn.summary(q).events_of("call"):
+                callee, selft = resolve_callee(nn, q, e["term"])
+                if callee is None or not callee.startswith(MOD):
+                    continue
+                cname = callee.rsplit(".", 1)[1]
+                if not cname.startswith("_") or cname == "__init__":
+                    continue
+                cs = nn.summary(callee)
+                bind = nn.A.bind_call(cs, strip(e["term"]), self_term=selft)
+                if bind is None:
+                    continue
+                for i, p in enumerate(cs.params):
+                    a = bind.get(("param", p[0]))
+                    if a is None or nn.R.of(callee).get(("param", p[0])) not in ("SEQS", "SEQS2"):
+                        continue
+                    st = arg_state(q, a)
+                    prev = state.get((callee, i))
+                    state[(callee, i)] = "RAW" if "RAW" in (st, prev) else "NORM"
+    for q in funcs:
+        s = nn.summary(q)
+        for e in s.events_of("load_sub"):
+            obj = strip(e["obj"])
+            root, norm = nn.root(obj)
+            role = nn.R._role_of(q, obj)
+            if role not in ("SEQS", "SEQS2"):
+                continue
+            if head(strip(e["index"])) == "slice":
+                continue
+            n += 1
+            st = arg_state(q, obj)
+            r.rep.ob(rule, q, st == "NORM", "a caller-supplied container is subscripted by position only after it was converted to a positional array", wh(r, q, e.node),
+                     expected="ensure_numpy / list / np.asarray before X[i]", found=f"{show(obj, 50)}[{show(e['index'], 30)}] on a {'normalised' if st == 'NORM' else 'raw'} container",
+                     key=f"typestate {show(root, 40)}[{show(e['index'], 40)}]")
+            r.rep.analysed(q)
+    return n
+
+
+# =========================================================================== execution configuration (C11)
+def lower_bound(nn, q, t, facts):
+    """Integer lower bound of a term under ``facts`` {term: lower bound}; -inf when unknown."""
+    ninf = float("-inf")
+    t = strip(t)
+    if t in facts:
+        return facts[t]
+    if is_const(t) and isinstance(t[2], (int, float)) and not isinstance(t[2], bool):
+        return t[2]
+    if head(t) == "call":
+        f = strip(t[1])
+        n = f[1] if head(f) == "glob" else None
+        if n == "builtins.max" and t[2]:
+            return max(lower_bound(nn, q, a, facts) for a in t[2])
+        if n == "builtins.min" and t[2]:
+            return min(lower_bound(nn, q, a, facts) for a in t[2])
+        if n in ("builtins.int", "math.floor", "numpy.floor") and len(t[2]) == 1:
+            lb = lower_bound(nn, q, t[2][0], facts)
+            return math.floor(lb) if lb != ninf else ninf
+        if n in ("math.ceil", "numpy.ceil") and len(t[2]) == 1:
+            lb = lower_bound(nn, q, t[2][0], facts)
+            if lb == ninf:
+                return ninf
+            return math.ceil(lb) if lb > 0 else (1 if _positive(nn, q, t[2][0], facts) else math.ceil(lb))
+        if n == "builtins.len":
+            return facts.get(t, 0)
+    if head(t) == "bin":
+        a, b = lower_bound(nn, q, t[2], facts), lower_bound(nn, q, t[3], facts)
+        if t[1] == "+":
+            return a + b
+        if t[1] == "*" and a >= 0 and b >= 0:
+            return a * b
+        if t[1] in ("/", "//") and a >= 0 and b > 0:
+            return 0
+        if t[1] == "//":
+            # -(-a // b) handled by the unary case
+            return ninf
+    if head(t) == "un" and t[1] == "-":
+        x = strip(t[2])
+        if head(x) == "bin" and x[1] == "//" and head(strip(x[2])) == "un" and strip(x[2])[1] == "-":
+            a = lower_bound(nn, q, strip(x[2])[2], facts)
+            b = lower_bound(nn, q, x[3], facts)
+            if a >= 1 and b >= 1:
+                return 1          # ceil(a / b) >= 1
+    return ninf
+
+
+def _positive(nn, q, t, facts):
+    t = strip(t)
+    if head(t) == "bin" and t[1] == "/":
+        return lower_bound(nn, q, t[2], facts) >= 1 and lower_bound(nn, q, t[3], facts) >= 1
+    return lower_bound(nn, q, t, facts) > 0
+
+
+def check_pool(r, rule):
+    import ast as _ast
+    nn = get_nn(r)
+    q = MOD + "_to_triplets"
+    s = nn.summary(q)
+    r.rep.analysed(q)
+    stores = s.events_of("gstore")
+    where = wh(r, q, s.func.node)
+    stores = [e for e in stores if e["name"] == "_cal_params"]
+    if not stores:
+        raise AnalysisBroken(f"{q}: no store to the module-level parameter block found (anchor vanished)")
+    st = stores[0]
+    for extra in stores[1:]:
+        r.rep.ob(rule + "-ORD", q, False, "the parameter block is written exactly once, unconditionally, before the pool exists", wh(r, q, extra.node),
+                 expected="one store dominating Pool(...) and map(...)", found=f"{len(stores)} stores (one per branch or after the pool was created)", key="block stores")
+    writer = strip(st["value"])
+    if head(writer) != "tuple":
+        raise AnalysisBroken(f"{q}: parameter block is not written as a tuple literal")
+    # ---- ORD: the block is written unconditionally before the pool exists and before any worker can run
+    maps = [e for e in s.events_of("call") if (is_call(e["term"], "builtins.map") or (is_mcall(e["term"]) and strip(e["term"][1])[2] in ("map", "imap", "imap_unordered", "starmap", "map_async", "apply_async")))]
+    pools = [e for e in s.events if e.kind in ("with", "call") and (is_call(e.get("ctxmgr", e.get("term")), "multiprocessing.Pool"))]
+    if not maps:
+        raise AnalysisBroken(f"{q}: no map / Pool.map call found (anchor vanished)")
+    first_use = min(e.seq for e in maps + pools)
+    r.rep.ob(rule + "-ORD", q, st.seq < first_use and not st.ctx.guards and not st.ctx.loops, "the parameter block is written before the pool is created and before any worker runs (workers inherit it on fork)",
+             wh(r, q, st.node), expected="_cal_params = (...) dominates Pool(...) and map(...)", found="written first" if st.seq < first_use else "written after the pool / map call", key="block before pool")
+    later = [e for e in s.events_of("gstore") if e.seq > first_use]
+    r.rep.ob(rule + "-ORD", q, not later, "the block is never rewritten while workers may read it", where, expected="single store", found=f"{len(later)} later store(s)", key="block single store")
+    # ---- order-preserving primitive and legal chunk size
+    for e in maps:
+        c = strip(e["term"])
+        meth = strip(c[1])[2] if is_mcall(c) else "map"
+        r.rep.ob(rule + "-ORD", q, meth in ("map", "imap", "starmap"), "results are assembled by an order-preserving primitive", wh(r, q, e.node), expected="map / Pool.map", found=meth, key=f"ordered {meth}")
+        if is_mcall(c):
+            cs = get_arg(c, 2, "chunksize")
+            facts = {}
+            for t_, role in nn.R.of(q).items():
+                if role == "SEQS":
+                    facts[("call", ("glob", "builtins.len"), (t_,), ())] = 1
+                if role == "NCPU":
+                    facts[t_] = 2 if any(strip(g_) == ("cmp", "==", t_, const(1)) and not pol for g_, pol in e.ctx.guards) else 1
+            ok = cs is None or is_const(cs, None) or lower_bound(nn, q, cs, facts) >= 1
+            r.rep.ob(rule + "-IV", q, ok, "Pool.map gets a legal chunk size (None or >= 1) for every len(seqs) >= 1 and n_cpu >= 2", wh(r, q, e.node),
+                     expected="chunksize >= 1", found=f"{show(cs, 60)} has lower bound {lower_bound(nn, q, cs, facts) if cs is not None else '-'}", key="chunksize")
+        # the iterable is enumerate(y_indices): task k carries position k
+        it = c[2][1] if len(c[2]) > 1 else None
+        ok_it = it is not None and is_call(it, "builtins.enumerate") and nn.R._role_of(q, strip(it)[2][0]) is None and strip(strip(it)[2][0]) == ("param", s.params[1][0])
+        r.rep.ob(rule + "-ORD", q, ok_it, "task k is (k, candidates of sequence k)", wh(r, q, e.node), expected="enumerate(y_indices)", found=show(it, 50), key=f"tasks {meth}")
+    # ---- BLK: writer / reader arity
+    nslots = len(writer[1])
+    mod = nn.P.modules["pyrepseq.nn"]
+    readers = set()
+    for fq in [x for x in nn.P.functions if x.startswith(MOD)]:
+        fn = nn.P.functions[fq]
+        for node in _ast.walk(fn.node):
+            if isinstance(node, _ast.Name) and node.id == "_cal_params" and isinstance(node.ctx, _ast.Load):
+                readers.add(fq)
+            if isinstance(node, _ast.Assign) and isinstance(node.value, _ast.Name) and node.value.id == "_cal_params" and isinstance(node.targets[0], (_ast.Tuple, _ast.List)):
+                n_t = len(node.targets[0].elts)
+                r.rep.ob(rule + "-BLK", fq, n_t == nslots, "reader unpacks exactly the slots the writer stores", wh(r, fq, node), expected=f"{nslots} names", found=f"{n_t} names", key="block arity")
+    r.rep.ob(rule + "-BLK", q, {nn.R.block.get(k) for k in range(nslots)} >= {"SEQS", "K", "LIMIT", "CD", "MCD"}, "the block carries sequences, max_edits, limit, custom distance and its radius",
+             wh(r, q, st.node), expected="(seqs, max_edits, limit, custom_distance, max_cust_dist)", found=str([nn.R.block.get(k) for k in range(nslots)]), key="block slots")
+    # ---- WHO
+    allowed = {MOD + "_cal_levenshtein", MOD + "_cal_custom_dist"}
+    r.rep.ob(rule + "-WHO", q, readers <= allowed, "the block is read only by the two workers", where, expected=str(sorted(allowed)), found=str(sorted(readers)), key="block readers")
+    writers = {fq for fq in nn.P.functions if fq.startswith(MOD) and any(e["name"] == "_cal_params" for e in nn.summary(fq).events_of("gstore"))}
+    r.rep.ob(rule + "-WHO", q, writers == {q}, "the block is written only by _to_triplets", where, expected=q, found=str(sorted(writers)), key="block writers")
+    # ---- workers are pure
+    for w in sorted(allowed):
+        ws = nn.summary(w)
+        r.rep.analysed(w)
+        bad = []
+        for e in ws.events:
+            if e.kind == "gstore":
+                bad.append((e, f"global {e['name']} = ..."))
+            elif e.kind in ("setattr", "augattr"):
+                bad.append((e, f"{show(e['obj'], 30)}.{e['name']} = ..."))
+            elif e.kind in ("setitem", "augitem") and head(e["obj"]) != "alloc":
+                bad.append((e, f"{show(e['obj'], 40)}[...] = ..."))
+            elif e.kind == "call" and is_mcall(e["term"]):
+                recv = strip(e["term"][1])[1]
+                from ..ssa import MUTATORS
+                if strip(e["term"][1])[2] in MUTATORS and head(recv) != "alloc" and not (head(strip(recv)) in ("after", "phi", "mut")):
+                    if any(x == BLOCK or head(x) == "param" for x in walk(recv)):
+                        bad.append((e, show(e["term"], 60)))
+        r.rep.ob(rule + "-PURE", w, not bad, "the worker writes only to its own fresh locals (its result is a function of its task and the block)", wh(r, w, bad[0][0].node if bad else ws.func.node),
+                 expected="empty write set on globals and arguments", found="; ".join(b for _, b in bad) or "none", key="worker pure")
+
+
+def check_limit(r, rule):
+    """max_returns truncation in the custom-distance worker: applied to the list sorted ascending by the reported distance, after self-exclusion and filtering."""
+    nn = get_nn(r)
+    q = MOD + "_cal_custom_dist"
+    n = 0
+    for mode in [m for m in MODES if m[0] == "callable"]:
+        for st in custom_worker_sites(nn, mode):
+            info = st.extra["pipeline"]
+            br = st.extra["branch"]
+            where = wh(r, q, st.node)
+            trunc = "truncate" in info["order"]
+            lim_none = any(nn.R._role_of(q, strip(g_)[2]) == "LIMIT" and strip(g_)[1] in ("is", "==") and strip(g_)[3] == NONE and pol for g_, pol in br if head(strip(g_)) == "cmp")
+            K = f"{MODE_NAME[mode]}/{'untruncated' if lim_none else 'truncated'}"
+            n += 1
+            if lim_none:
+                r.rep.ob(rule, q, not trunc, "max_returns = None keeps every neighbour", where, expected="no slice", found="sliced" if trunc else "unsliced", key=f"{K} none")
+                continue
+            r.rep.ob(rule, q, trunc and nn.R._role_of(q, info["limit"]) == "LIMIT", "the result is cut to max_returns entries", where, expected="[0:limit]", found=show(info["limit"], 30) if trunc else "no slice", key=f"{K} slice")
+            o = info["order"]
+            ok_order = trunc and "sort" in o and o.index("truncate") < o.index("sort") and ("filter" not in o or o.index("sort") < o.index("filter"))
+            r.rep.ob(rule, q, ok_order, "truncation happens after sorting, sorting after filtering (no closer true neighbour is cut in favour of a farther or rejected one)", where,
+                     expected="sorted(filter(...))[0:limit]", found=" <- ".join(o), key=f"{K} order")
+            key = strip(info["sortkey"]) if info["sortkey"] is not None else None
+            ok_key = key is not None and head(key) == "lam" and len(key[2]) == 1 and strip(key[3]) == ("sub", ("lparam", key[1], key[2][0][0]), const(2)) and not info["reverse"]
+            r.rep.ob(rule, q, ok_key, "neighbours are ordered ascending by the reported distance", where, expected="key=lambda x: x[2], ascending", found=(show(key, 50) if key is not None else "no key (sorts by position)") + (" reversed" if info["reverse"] else ""), key=f"{K} sort key")
+    if n < 2:
+        raise AnalysisBroken(f"{q}: {n} pipeline branch(es) analysed, floor is 2")
+
+
+def check_rank2(r, rule, q):
+    """2-D subscripts on np.array(<list of neighbours>) need a non-empty list (guard) or reshape(-1, k)."""
+    nn = get_nn(r)
+    s = r.A.summary(q)
+    r.rep.analysed(q)
+    n = 0
+    for e in s.events:
+        if e.kind not in ("load_sub", "setitem"):
+            continue
+        idx = strip(e["index"])
+        if head(idx) != "tuple" or len(idx[1]) < 2:
+            continue
+        obj = strip(e["obj"])
+        src = None
+        reshaped = False
+        t = obj
+        while True:
+            t = strip(t)
+            if is_mcall(t, "reshape"):
+                a = t[2]
+                if len(a) == 2 and is_const(a[0], -1) and is_const(a[1]) and isinstance(a[1][2], int) and a[1][2] > 0:
+                    reshaped = True
+                t = strip(t[1])[1]
+                continue
+            if is_call(t, "numpy.array") or is_call(t, "numpy.asarray"):
+                src = strip(t[2][0]) if t[2] else None
+            break
+        if src is None or head(src) in ("list", "tuple"):
+            continue
+        n += 1
+        claim = ("cmp", ">", ("call", ("glob", "builtins.len"), (src,), ()), const(0))
+        ok = reshaped
+        if not ok:
+            ok, _ = guards_imply(e.ctx.guards, claim)
+        r.rep.ob(rule, q, ok, "a column subscript on np.array(<neighbour list>) cannot meet the rank-1 empty array", where_of(r.P, s.func, e.node),
+                 expected="len(list) > 0 on this path, or .reshape(-1, k)", found=f"{show(obj, 50)}[{show(idx, 30)}]" + (" reshaped" if reshaped else " unguarded" if not ok else " guarded"),
+                 key=f"rank2 {show(obj, 40)}[{show(idx, 30)}]")
+    return n
